@@ -632,7 +632,7 @@ impl<'a> Parser<'a> {
                                     );
                                 }
 
-                                duration.hours += value;
+                                duration.hours = self.add_duration_value(duration.hours, value)?;
 
                                 if let Some(fraction) = op_fraction {
                                     let extra_minutes = fraction * 60_f64;
@@ -656,7 +656,7 @@ impl<'a> Parser<'a> {
                                     );
                                 }
 
-                                duration.minutes += value;
+                                duration.minutes = self.add_duration_value(duration.minutes, value)?;
 
                                 if let Some(fraction) = op_fraction {
                                     let extra_seconds = fraction * 60_f64;
@@ -755,7 +755,7 @@ impl<'a> Parser<'a> {
                                     ));
                                 }
 
-                                duration.days += value;
+                                duration.days = self.add_duration_value(duration.days, value)?;
                                 if let Some(fraction) = op_fraction {
                                     let extra_hours = fraction * 24.0;
                                     let extra_full_hours = extra_hours.trunc();
@@ -820,11 +820,20 @@ impl<'a> Parser<'a> {
         };
 
         while let Some(digit) = self.inc().and_then(|ch| ch.to_digit(10)) {
-            value *= 10;
-            value += digit;
+            value = match value.checked_mul(10).and_then(|v| v.checked_add(digit)) {
+                Some(v) => v,
+                None => return Err(self.parse_error("Number too large in duration".to_string())),
+            };
         }
 
         Ok(value)
+    }
+
+    fn add_duration_value(&mut self, current: u32, value: u32) -> Result<u32, ParseError> {
+        match current.checked_add(value) {
+            Some(v) => Ok(v),
+            None => Err(self.parse_error("Number too large in duration".to_string())),
+        }
     }
 
     fn iso_to_ymd(
